@@ -835,6 +835,7 @@ class C01(fw.Prop):
                 pl2 = conv_prog2(obs["prog"], c["tab"])
                 lit = gapp("CProg2", pl2, gvhugr(c), gbool(obs["same"]), gbool(obs["fake"]))
                 obs["in_model2"] = True
+                ctx.__dict__.setdefault("c01_prem", []).append((case, gapp("CPrem2", gtab(c["tab"]), pl2)))
                 obs.pop("out_of_model", None)
             except OutOfModel as e:
                 obs["out_of_model2"] = str(e)
